@@ -120,7 +120,7 @@ def run(pid, tier, repo="/repo", out_evidence=True, quiet=False):
         j2, meta = generate(prog, props, log)
         jobs += j2
     t_gen = time.time() - t_start
-    tq = float(os.environ.get("GOVC_TQUICK", "3"))
+    tq = float(os.environ.get("GOVC_TQUICK", "6"))
     tf = float(os.environ.get("GOVC_TFULL", "20" if tier == "quick" else "120"))
     cross = tier == "thorough"
     todo = [(j["name"], j["text"], tq, tf, cross and j.get("expect") != "sat", j.get("fallback")) for j in jobs if "text" in j]
